@@ -36,6 +36,10 @@ from tornado.log import app_log, gen_log
 from tornado.util import GzipDecompressor
 
 CR_OR_LF_RE = re.compile(b"\r|\n")
+# Bytes that must never appear inside a start line or header line that we write:
+# CR and LF would split the message, and NUL is rejected by HTTP parsers
+# (header names set through HTTPHeaders.__setitem__ are not validated elsewhere).
+_FORBIDDEN_LINE_BYTES_RE = re.compile(b"[\x00\r\n]")
 
 
 class _QuietException(Exception):
@@ -466,8 +470,10 @@ class HTTP1Connection(httputil.HTTPConnection):
         )
         lines.extend(line.encode("latin1") for line in header_lines)
         for line in lines:
-            if CR_OR_LF_RE.search(line):
-                raise ValueError("Illegal characters (CR or LF) in header: %r" % line)
+            if _FORBIDDEN_LINE_BYTES_RE.search(line):
+                raise ValueError(
+                    "Illegal characters (CR, LF or NUL) in header: %r" % line
+                )
         future = None
         if self.stream.closed():
             future = self._write_future = Future()
